@@ -1622,6 +1622,20 @@ func (z *Decimal) round(sbit uint) {
 	}
 }
 
+// clampExp limits an exponent supplied by a caller so that the small
+// adjustments applied to it before the range check cannot wrap around.
+// Exponents of that magnitude are far outside [MinExp, MaxExp] either way.
+func clampExp(exp int64) int64 {
+	const lim = 1 << 62
+	if exp > lim {
+		return lim
+	}
+	if exp < -lim {
+		return -lim
+	}
+	return exp
+}
+
 // dnorm normalizes mantissa m by shifting it to the left
 // such that the msd of the most-significant word (msw) is != 0.
 // It returns the shift amount. It assumes that len(m) != 0.
@@ -1700,6 +1714,7 @@ func (x *Decimal) BitsExp() ([]Word, int32) {
 // SetBitsExp is intended to support implementation of missing low-level Decimal
 // functionality outside this package; it should be avoided otherwise.
 func (z *Decimal) SetBitsExp(mant []Word, exp int64) *Decimal {
+	exp = clampExp(exp)
 	z.mant = dec(mant).norm()
 	z.neg = false
 	if z.prec == 0 {
